@@ -33,6 +33,8 @@ CLAIMS = {
          "for every impl of ShardEdge: edge(sig) equals local_edge(local_sig(sig)) plus shard(sig)*num_vertices(); the local vertices lie in three consecutive segment windows of the (l+2)*2^s (or 3*seg) cells, hence are distinct and in range; sort_key < num_sort_keys; shard() and Sig::high_bits take the same top bits; set_up_graphs asserts the Vertex bound. The float formulas for s and l are not decided."),
  "C10": ("clamp/partition/flow rules on copy, writer-reader agreement on chunk views, unit rule on unaligned reads, seq/par sibling skeletons", "5 C10",
          "copy clamps by both vectors and shifts every source word by the difference of the bit offsets in the misaligned branches; try_chunks_mut slices exactly ceil(len*w/BITS) words into ceil(chunk*w/BITS)-word views of min(chunk, remaining) elements; the unaligned read uses bit/8 and bit%8; sequential and parallel fill/flip/reset/count agree; loops are bounded by the logical length. Bit-exact equality of the fast paths is not decided."),
+ "C11": ("constant evaluation + compiler type layouts + documented-formula families + interval sampling of the expansion factor", "5 C11",
+         "bytes of counters per block (from rustc's layouts) over the block size equal the documented overheads; Select9 inventory sizes; Elias-Fano l and high/low sizes follow the documented formula on integers; functions size l from ceil(c*max shard) with l >= 1 and c within 1.23 / 1.135 (known finding for the unsharded logic); packed vectors allocate ceil(len*w/BITS) words. mem_size itself and rounding for tiny inputs are not decided."),
  "C12": ("unsafe-site census with guard dominance and a table of construction invariants", "5 C12",
          "every unsafe call in a safe function is discharged by dominating facts or rests on a tabled construction invariant; unchecked-precondition functions are unsafe fn; iterator start protocol; universe guard. The construction invariants themselves are assumptions."),
 }
